@@ -9,19 +9,29 @@
 // The model (lean/OjgVerif/Writer/Pretty.lean, `layoutOf`) reads these two byte strings, and
 // Props/C04.lean proves they are white space, so a changed literal changes the model and, if it is
 // not white space, breaks the proof. It fails loudly on source shapes it cannot read.
+//
+// Gen/WriterDispatch.lean (extractWriterDispatch): the arms of the type switches that route a value
+// to the code that writes it — (*pretty.Writer).build in pretty/build.go and (*oj.Writer).appendJSON
+// in oj/writer.go (the tight writer of oj/tight.go has no switch of its own: it is reached through
+// the same appendJSON by wr.appendArray / wr.appendObject) — each as (case type, the outermost calls
+// of the arm in source order), plus uintViaInt64: whether the uint / uint64 arm of build goes
+// through buildInt(int64(…)) (the defect fixed in cb0e5e8). Props/C04.lean states which arm every
+// leaf kind of the model has to have (C04_dispatch_pretty, C04_dispatch_oj, C04_pretty_uint_tripwire).
 package main
 
 import (
+	"bytes"
 	"fmt"
 	"go/ast"
 	"go/parser"
+	"go/printer"
 	"go/token"
 	"path/filepath"
 	"strconv"
 	"strings"
 )
 
-func init() { registerExtra(extractPrettyFill) }
+func init() { registerExtra(extractPrettyFill); registerExtra(extractWriterDispatch) }
 
 // byteSliceLit reads `[]byte{'x', 32, …}`.
 func byteSliceLit(e ast.Expr) ([]byte, bool) {
@@ -196,4 +206,326 @@ func extractPrettyFill(repo, out string) ([]string, error) {
 		return []string{"PrettyFill"}, nil
 	}
 	return nil, nil
+}
+
+// ---- type-switch dispatch facts ----
+
+func wrExprText(fset *token.FileSet, e ast.Node) string {
+	var b bytes.Buffer
+	_ = printer.Fprint(&b, fset, e)
+	return strings.Join(strings.Fields(b.String()), " ")
+}
+
+// wrOuterCalls lists the outermost call expressions of the statements, in source order.
+func wrOuterCalls(fset *token.FileSet, body []ast.Stmt) []string {
+	out := []string{}
+	for _, st := range body {
+		ast.Inspect(st, func(n ast.Node) bool {
+			if ce, ok := n.(*ast.CallExpr); ok {
+				out = append(out, wrExprText(fset, ce))
+				return false
+			}
+			return true
+		})
+	}
+	return out
+}
+
+type wrDispatchArm struct {
+	typ   string
+	calls []string
+}
+
+// wrTypeSwitchArms reads the one type switch over `data` at the top level of method `name`.
+func wrTypeSwitchArms(fset *token.FileSet, file, name string) ([]wrDispatchArm, error) {
+	f, err := parser.ParseFile(fset, file, nil, 0)
+	if err != nil {
+		return nil, err
+	}
+	var sw *ast.TypeSwitchStmt
+	n := 0
+	for _, d := range f.Decls {
+		fd, ok := d.(*ast.FuncDecl)
+		if !ok || fd.Name.Name != name || fd.Recv == nil || fd.Body == nil {
+			continue
+		}
+		for _, st := range fd.Body.List {
+			if ts, ok := st.(*ast.TypeSwitchStmt); ok {
+				sw = ts
+				n++
+			}
+		}
+	}
+	if n != 1 {
+		return nil, fmt.Errorf("%s: expected one top-level type switch in method %s, found %d", file, name, n)
+	}
+	as, ok := sw.Assign.(*ast.AssignStmt)
+	if !ok || len(as.Rhs) != 1 {
+		return nil, fmt.Errorf("%s %s: type switch is not of the form `switch td := data.(type)`", file, name)
+	}
+	if ta, ok := as.Rhs[0].(*ast.TypeAssertExpr); !ok || wrExprText(fset, ta.X) != "data" {
+		return nil, fmt.Errorf("%s %s: type switch is not over `data`", file, name)
+	}
+	var arms []wrDispatchArm
+	seen := map[string]bool{}
+	for _, st := range sw.Body.List {
+		cc := st.(*ast.CaseClause)
+		calls := wrOuterCalls(fset, cc.Body)
+		if cc.List == nil {
+			arms = append(arms, wrDispatchArm{"default", calls})
+			continue
+		}
+		for _, te := range cc.List {
+			t := wrExprText(fset, te)
+			if seen[t] {
+				return nil, fmt.Errorf("%s %s: type %s has two arms", file, name, t)
+			}
+			seen[t] = true
+			arms = append(arms, wrDispatchArm{t, calls})
+		}
+	}
+	return arms, nil
+}
+
+func wrLeanStrList(xs []string) string {
+	q := make([]string, len(xs))
+	for i, x := range xs {
+		q[i] = strconv.Quote(x)
+	}
+	return "[" + strings.Join(q, ", ") + "]"
+}
+
+func wrLeanArms(arms []wrDispatchArm) string {
+	var b strings.Builder
+	b.WriteString("[\n")
+	for i, a := range arms {
+		sep := ","
+		if i == len(arms)-1 {
+			sep = ""
+		}
+		fmt.Fprintf(&b, "  (%s, %s)%s\n", strconv.Quote(a.typ), wrLeanStrList(a.calls), sep)
+	}
+	b.WriteString("]")
+	return b.String()
+}
+
+func extractWriterDispatch(repo, out string) ([]string, error) {
+	fset := token.NewFileSet()
+	pb, err := wrTypeSwitchArms(fset, filepath.Join(repo, "pretty", "build.go"), "build")
+	if err != nil {
+		return nil, err
+	}
+	oa, err := wrTypeSwitchArms(fset, filepath.Join(repo, "oj", "writer.go"), "appendJSON")
+	if err != nil {
+		return nil, err
+	}
+	// the leaf builders of pretty/build.go: (method, outermost calls of its body)
+	bf, err := parser.ParseFile(fset, filepath.Join(repo, "pretty", "build.go"), nil, 0)
+	if err != nil {
+		return nil, err
+	}
+	var builders []wrDispatchArm
+	for _, d := range bf.Decls {
+		fd, ok := d.(*ast.FuncDecl)
+		if !ok || fd.Recv == nil || fd.Body == nil {
+			continue
+		}
+		switch fd.Name.Name {
+		case "buildNull", "buildBool", "buildInt", "buildUint", "buildFloat32", "buildFloat64", "buildStringNode":
+			builders = append(builders, wrDispatchArm{fd.Name.Name, wrOuterCalls(fset, fd.Body.List)})
+		}
+	}
+	loop, err := wrStringLoop(fset, filepath.Join(repo, "string.go"), "AppendJSONString")
+	if err != nil {
+		return nil, err
+	}
+	var omit []wrDispatchArm
+	for _, fn := range [][2]string{{"writer.go", "appendObject"}, {"writer.go", "appendSortObject"}, {"tight.go", "tightObject"}, {"tight.go", "tightSortObject"}} {
+		arms, err := wrOmitSwitch(fset, filepath.Join(repo, "oj", fn[0]), fn[1])
+		if err != nil {
+			return nil, err
+		}
+		omit = append(omit, arms...)
+	}
+	viaInt64, found := false, 0
+	for _, a := range pb {
+		if a.typ != "uint" && a.typ != "uint64" {
+			continue
+		}
+		found++
+		for _, c := range a.calls {
+			if strings.Contains(c, "buildInt(") && strings.Contains(c, "int64(") {
+				viaInt64 = true
+			}
+		}
+	}
+	if found != 2 {
+		return nil, fmt.Errorf("pretty/build.go build: expected an arm for uint and one for uint64, found %d", found)
+	}
+	var b strings.Builder
+	b.WriteString("/- GENERATED by /verif/tools/extract (writer.go) from pretty/build.go and oj/writer.go — do not edit; rewritten on every run. -/\n")
+	b.WriteString("namespace OjgVerif.Gen.WriterDispatch\n\n")
+	fmt.Fprintf(&b, "/-- arms of `switch td := data.(type)` in (*pretty.Writer).build: (case type, outermost calls of the arm) -/\ndef prettyBuild : List (String × List String) := %s\n\n", wrLeanArms(pb))
+	fmt.Fprintf(&b, "/-- arms of `switch td := data.(type)` in (*oj.Writer).appendJSON: (case type, outermost calls of the arm) -/\ndef ojAppendJSON : List (String × List String) := %s\n\n", wrLeanArms(oa))
+	fmt.Fprintf(&b, "/-- the leaf builders of pretty/build.go: (method, outermost calls of its body) -/\ndef prettyBuilders : List (String × List String) := %s\n\n", wrLeanArms(builders))
+	fmt.Fprintf(&b, "/-- the loop of ojg.AppendJSONString (string.go), statement by statement: (place, simple statements in source order; an `if c` line opens a block, `end` closes it). Places: `pre` (before the loop), `range` (the range clause), `head` (loop body before the switch), one per case of the switch over the jMap class (for '8': one per case of the inner switch over the rune), `post` (after the loop) -/\ndef appendJSONStringLoop : List (String × List String) := %s\n\n", wrLeanArms(loop))
+	fmt.Fprintf(&b, "/-- the member filter of the four object writers of oj (appendObject, appendSortObject, tightObject, tightSortObject): the arms of the one `switch tm := m.(type)` of each, as (function/case type, statements of the arm) -/\ndef ojOmitSwitch : List (String × List String) := %s\n\n", wrLeanArms(omit))
+	fmt.Fprintf(&b, "/-- the uint or uint64 arm of build converts to int64 and calls buildInt (the defect fixed in cb0e5e8) -/\ndef prettyUintViaInt64 : Bool := %v\n\n", viaInt64)
+	b.WriteString("end OjgVerif.Gen.WriterDispatch\n")
+	ch, err := writeIfChanged(filepath.Join(out, "WriterDispatch.lean"), b.String())
+	if err != nil {
+		return nil, err
+	}
+	if ch {
+		return []string{"WriterDispatch"}, nil
+	}
+	return nil, nil
+}
+
+// ---- the loop of AppendJSONString, statement by statement ----
+
+func wrFlatStmts(fset *token.FileSet, list []ast.Stmt) []string {
+	out := []string{}
+	for _, st := range list {
+		switch t := st.(type) {
+		case *ast.IfStmt:
+			out = append(out, "if "+wrExprText(fset, t.Cond))
+			out = append(out, wrFlatStmts(fset, t.Body.List)...)
+			if t.Else != nil {
+				out = append(out, "else")
+				if eb, ok := t.Else.(*ast.BlockStmt); ok {
+					out = append(out, wrFlatStmts(fset, eb.List)...)
+				} else {
+					out = append(out, wrFlatStmts(fset, []ast.Stmt{t.Else})...)
+				}
+			}
+			out = append(out, "end")
+		case *ast.SwitchStmt, *ast.TypeSwitchStmt, *ast.ForStmt, *ast.RangeStmt, *ast.BlockStmt:
+			out = append(out, "<nested "+fmt.Sprintf("%T", st)+">")
+		default:
+			out = append(out, wrExprText(fset, st))
+		}
+	}
+	return out
+}
+
+func wrCaseLabel(fset *token.FileSet, cc *ast.CaseClause) string {
+	if cc.List == nil {
+		return "default"
+	}
+	parts := make([]string, len(cc.List))
+	for i, e := range cc.List {
+		parts[i] = wrExprText(fset, e)
+	}
+	return strings.Join(parts, ",")
+}
+
+func wrStringLoop(fset *token.FileSet, file, name string) ([]wrDispatchArm, error) {
+	f, err := parser.ParseFile(fset, file, nil, 0)
+	if err != nil {
+		return nil, err
+	}
+	var fn *ast.FuncDecl
+	for _, d := range f.Decls {
+		if fd, ok := d.(*ast.FuncDecl); ok && fd.Name.Name == name && fd.Recv == nil && fd.Body != nil {
+			fn = fd
+		}
+	}
+	if fn == nil {
+		return nil, fmt.Errorf("%s: func %s not found", file, name)
+	}
+	var out []wrDispatchArm
+	var pre, post []ast.Stmt
+	var rng *ast.RangeStmt
+	for _, st := range fn.Body.List {
+		if r, ok := st.(*ast.RangeStmt); ok {
+			if rng != nil {
+				return nil, fmt.Errorf("%s %s: more than one range loop", file, name)
+			}
+			rng = r
+			continue
+		}
+		if rng == nil {
+			pre = append(pre, st)
+		} else {
+			post = append(post, st)
+		}
+	}
+	if rng == nil {
+		return nil, fmt.Errorf("%s %s: no range loop at the top level", file, name)
+	}
+	out = append(out, wrDispatchArm{"pre", wrFlatStmts(fset, pre)})
+	out = append(out, wrDispatchArm{"range", []string{wrExprText(fset, rng.Key) + ", " + wrExprText(fset, rng.Value) + " := range " + wrExprText(fset, rng.X)}})
+	var head []ast.Stmt
+	var sw *ast.SwitchStmt
+	for _, st := range rng.Body.List {
+		if s, ok := st.(*ast.SwitchStmt); ok && sw == nil {
+			sw = s
+			continue
+		}
+		if sw != nil {
+			return nil, fmt.Errorf("%s %s: statements after the switch of the loop body", file, name)
+		}
+		head = append(head, st)
+	}
+	if sw == nil {
+		return nil, fmt.Errorf("%s %s: no switch in the loop body", file, name)
+	}
+	out = append(out, wrDispatchArm{"head", wrFlatStmts(fset, head)})
+	out = append(out, wrDispatchArm{"switch", []string{wrExprText(fset, sw.Tag)}})
+	for _, st := range sw.Body.List {
+		cc := st.(*ast.CaseClause)
+		label := wrCaseLabel(fset, cc)
+		// an inner switch as the last statement: one place per inner case
+		if n := len(cc.Body); n > 0 {
+			if in, ok := cc.Body[n-1].(*ast.SwitchStmt); ok {
+				out = append(out, wrDispatchArm{label, append(wrFlatStmts(fset, cc.Body[:n-1]), "switch "+wrExprText(fset, in.Tag))})
+				for _, ist := range in.Body.List {
+					icc := ist.(*ast.CaseClause)
+					out = append(out, wrDispatchArm{label + "/" + wrCaseLabel(fset, icc), wrFlatStmts(fset, icc.Body)})
+				}
+				continue
+			}
+		}
+		out = append(out, wrDispatchArm{label, wrFlatStmts(fset, cc.Body)})
+	}
+	out = append(out, wrDispatchArm{"post", wrFlatStmts(fset, post)})
+	return out, nil
+}
+
+// wrOmitSwitch reads the one type switch over `m` (the member value) of an object writer of oj.
+func wrOmitSwitch(fset *token.FileSet, file, name string) ([]wrDispatchArm, error) {
+	f, err := parser.ParseFile(fset, file, nil, 0)
+	if err != nil {
+		return nil, err
+	}
+	var sws []*ast.TypeSwitchStmt
+	for _, d := range f.Decls {
+		fd, ok := d.(*ast.FuncDecl)
+		if !ok || fd.Name.Name != name || fd.Recv != nil || fd.Body == nil {
+			continue
+		}
+		ast.Inspect(fd.Body, func(n ast.Node) bool {
+			if ts, ok := n.(*ast.TypeSwitchStmt); ok {
+				sws = append(sws, ts)
+			}
+			return true
+		})
+	}
+	if len(sws) != 1 {
+		return nil, fmt.Errorf("%s: expected one type switch in func %s, found %d", file, name, len(sws))
+	}
+	as, ok := sws[0].Assign.(*ast.AssignStmt)
+	if !ok || len(as.Rhs) != 1 {
+		return nil, fmt.Errorf("%s %s: type switch is not of the form `switch tm := m.(type)`", file, name)
+	}
+	if ta, ok := as.Rhs[0].(*ast.TypeAssertExpr); !ok || wrExprText(fset, ta.X) != "m" {
+		return nil, fmt.Errorf("%s %s: type switch is not over `m`", file, name)
+	}
+	var arms []wrDispatchArm
+	for _, st := range sws[0].Body.List {
+		cc := st.(*ast.CaseClause)
+		arms = append(arms, wrDispatchArm{name + "/" + wrCaseLabel(fset, cc), wrFlatStmts(fset, cc.Body)})
+	}
+	return arms, nil
 }
